@@ -19,14 +19,13 @@ mod codecs2_lzw {
         }
     }
 
-    // C16: the encoder writes the standard format: the stream starts with the 9-bit clear-table code 256 (1 0000 0000)
+    // C16: the encoder writes the standard format. This short input never fills the table, so there is exactly one
+    // conforming code sequence: the output must be the ISO example byte for byte (9-bit clear-table code 256 first).
     #[test]
-    fn lzw_encode_starts_with_a_9_bit_clear_code() {
+    fn lzw_encode_writes_the_iso_example() {
         let p = LZWFlateParams { early_change: 0, ..LZWFlateParams::default() };
         let e = lzw_encode(&PLAIN, &p).unwrap();
-        assert_eq!((e[0], e[1] >> 7), (0x80, 0), "first bytes {:02x?}: first 10 bits = {:010b} (a 10-bit clear code 512)", &e[..2], ((e[0] as u16) << 2) | (e[1] as u16 >> 6));
-        // this short input never fills the table, so the output is exactly the ISO example
-        assert_eq!(&e[..], &ISO[..]);
+        assert_eq!(&e[..], &ISO[..], "first 10 bits = {:010b} (512 = weezl's clear code for 9-bit symbols)", ((e[0] as u16) << 2) | (e[1] as u16 >> 6));
     }
 
     // C16 / DESIGN 6 "expected": encode() must accept the filter's default parameters (EarlyChange defaults to 1)
